@@ -220,8 +220,8 @@ def d23_shape(program):
 
 
 def d24_shape(program):
-    """Finding D24: a class that INTRODUCES call-time invariants (no ancestor has any) has to wrap the members it
-    inherits and thereby re-defines them on itself; in a multiple-inheritance class `D(B, C)` this copy shadows C's
+    """Finding D24: a class with call-time invariants that inherits members from an ancestor WITHOUT any (it introduces
+    them, or gets them from another base) has to wrap those members and thereby re-defines them on itself; in a multiple-inheritance class `D(B, C)` this copy shadows C's
     override of the same member (or C's __init__ reached through super())."""
     cl = program.get("classes", [])
     if not any(len(c.get("bases", [])) >= 2 for c in cl):
@@ -239,16 +239,18 @@ def d24_shape(program):
     def on_call(k):
         return any(i.get("on", "CALL") in ("CALL", "ALL") for i in cl[k].get("invs", []))
 
+    def eff_on_call(k):
+        return on_call(k) or any(on_call(j) for j in anc(k))
+
     for ci, c in enumerate(cl):
-        # "introduces": the first class on its path with an invariant that is checked around calls (an ancestor with
-        # attribute-set invariants only has not wrapped its methods)
-        if not on_call(ci) or not c.get("bases"):
+        # a class whose invariants are checked around calls (its own or those of one of its bases) and which inherits a
+        # member from an ancestor that has none (neither own nor inherited - such an ancestor has not wrapped its
+        # members, so this class wraps them and re-defines them on itself)
+        if not eff_on_call(ci) or not c.get("bases"):
             continue
         a = anc(ci)
-        if any(on_call(k) for k in a):
-            continue
         own = {(m["name"], m["kind"]) for m in c.get("members", [])}
-        inherited = {(m["name"], m["kind"]) for k in a for m in cl[k].get("members", [])
+        inherited = {(m["name"], m["kind"]) for k in a if not eff_on_call(k) for m in cl[k].get("members", [])
                      if m["kind"] not in ("static", "class", "new") and not (m["name"].startswith("_") and m["kind"] != "init")}
         if inherited - own:
             return True
